@@ -434,8 +434,8 @@ PROPS = {
     "C06": {
         "files": ["a2lfile/src/parser.rs", "a2lfile/src/lib.rs", "a2lfile/src/specification.rs"],
         "trusted": T_STD,
-        "assumptions": ["one document per fault kind (11 kinds: none, identifier for string, unknown keyword, multiplicity, block form, unknown enum value, missing parameter, element newer than file version, older version without fault, identifier starting with a digit, additional tokens); no IF_DATA",
-                        "the ~30 error_or_log call sites inside generated element parsers are reached only as far as the template exercises them"],
+        "assumptions": ["one document per fault kind (18 kinds, among them: none, identifier for string, unknown keyword, multiplicity, block form, unknown enum value, missing parameter, element newer than file version, older version without fault, identifier starting with a digit, additional tokens); no IF_DATA",
+                        "the error_or_log call sites inside generated element parsers are reached by the template (18 fault kinds) and by the generated documents: the end-tag site of every block element (quick), multiplicity / version / required-element sites of every element (thorough)"],
         "jobs": [
             {"engine": "E2", "module": "lib", "harness": "h_strict_vs_nonstrict", "functions": ["load_from_string", "parser::ParserState::parse_file", "parser::ParserState::error_or_log", "parser::ParserState::get_string", "parser::ParserState::get_identifier", "parser::ParserState::handle_multiplicity_error", "parser::ParserState::check_block_version_lower", "parser::ParserState::handle_unknown_taggedstruct_tag", "specification::Measurement::parse"],
              "bound": "18 fault kinds (incl. missing / unknown ASAP2_VERSION, wrong end tag of A2ML / IF_DATA / an ordinary block, PROJECT without MODULE, deprecated enum value) x {faulty element on one line, first parameter on the next line}, each loaded with strict = true and strict = false; diagnostics must name the line of the faulty token", "timeout": 300, "extra_modules": ["tokenizer"], "validate": 26},
@@ -443,7 +443,13 @@ PROPS = {
             {"engine": "E2", "module": "parser", "harness": h, "functions": ["parser::ParserState::handle_unknown_taggedstruct_tag", "parser::ParserState::error_or_log"],
              "bound": "unknown tag + every 1..3-lexeme soup, strictness symbolic: strict never accepts", "timeout": 300, "extra_modules": ["tokenizer"]}
             for h in ("h_unknown_soup_1", "h_unknown_soup_2", "h_unknown_soup_3")
+        ] + [
+            {"engine": "E2", "module": "lib", "harness": "h_strict_vs_nonstrict_end_tags", "functions": ["load_from_string", "<generated> *::parse (end tag check of every block)", "parser::ParserState::error_or_log"],
+             "bound": "one document per block element of the reference grammar (72) whose /end names another tag: strict rejects, non-strict recovers with a diagnostic", "timeout": 400, "extra_modules": ["tokenizer"], "must_cover": ["c06 generated documents are in place"], "validate": 12},
+            {"engine": "E2", "module": "lib", "harness": "h_strict_vs_nonstrict_recoverable", "functions": ["load_from_string", "<generated> *::parse", "parser::ParserState::error_or_log", "parser::ParserState::handle_multiplicity_error", "parser::ParserState::check_block_version_lower", "parser::ParserState::check_enumitem_version_lower"],
+             "bound": "every generated document with one recoverable problem (about 410: element too often, element / enum value newer than the file version, required element missing, wrong end tag), each loaded with strict = true and strict = false", "timeout": 900, "extra_modules": ["tokenizer"], "quick": False, "must_cover": ["c06 generated documents are in place"], "validate": 12},
         ],
+        "grammar_deviations": True,
     },
     "C19": {
         "files": ["a2lmacros/src/a2mlspec.rs", "a2lmacros/src/codegenerator/data_structure.rs", "a2lmacros/src/codegenerator/ifdata_parser.rs", "a2lmacros/src/codegenerator/ifdata_writer.rs", "a2lmacros/src/util.rs", "a2lfile/src/a2ml.rs", "a2lfile/src/ifdata.rs"],
